@@ -84,9 +84,10 @@ func (e *Encoder) processMessage(packet server.LoRaMessage) {
 		// Increase the frame counter after the message is sent. New devices will get 0,1,2...
 		packet.FrameContext.Device.FCntDn++
 		if err := e.context.Storage.UpdateDeviceState(packet.FrameContext.Device); err != nil {
-			lg.Error("Unable to update frame counter for downstream message to device with EUI %s: %v",
+			lg.Error("Unable to update frame counter for downstream message to device with EUI %s: %v. Not sending message.",
 				packet.FrameContext.Device.DeviceEUI,
 				err)
+			return
 		}
 		packet.FrameContext.GatewayContext.Radio.RX1Delay = 1
 		packet.FrameContext.GatewayContext.Deadline = 1
